@@ -6,8 +6,9 @@ def _mx():
 
 def quick8(tier): return list(_mx().QUICK_CFGS)
 def quick10(tier): return list(_mx().QUICK_CFGS) + list(_mx().GNU_CFGS[:2])
+def quick11x(tier): return list(_mx().QUICK_CFGS) + list(_mx().EXTRA_CFGS[:3])
 def quick16_all(tier): return _mx().all_cfgs() if tier == 'thorough' else list(_mx().QUICK16_CFGS)
-def all48_thorough(tier): return _mx().all_cfgs() if tier == "thorough" else list(_mx().QUICK_CFGS) + list(_mx().GNU_CFGS[:2])
+def all48_thorough(tier): return _mx().all_cfgs() if tier == "thorough" else list(_mx().QUICK_CFGS) + list(_mx().GNU_CFGS[:2]) + list(_mx().EXTRA_CFGS[:3])
 def san_quick(tier): return list(_mx().SAN_CFGS_ALL if tier == "thorough" else _mx().SAN_CFGS_QUICK)
 def none(tier): return []
 def probes2(tier): return ['probe-gcc-O2-c++17-std','probe-clang-O0-c++20-std']
@@ -20,65 +21,65 @@ COMMON_ASSUMPTIONS = [
 ]
 
 PROPS = {
- "C01": dict(cfgs=all48_thorough,
+ "C01": dict(cfgs=all48_thorough, consteval="focus",
    scope=lambda t: "every (a,b) in S(w,r)^2 x {+,-,+=,-=} x call-site shapes {out-of-line, loop, 36 constants as either operand, self, 8 caller guards} x build configurations; complete within that bound, not over all 2^128 pairs",
    assumptions=COMMON_ASSUMPTIONS + ["a defect needing more than w significant bits in BOTH operands and no constant operand of the listed set can escape"],
    deadline={"quick": 600, "thorough": 3000}),
- "C06": dict(cfgs=quick16_all,
+ "C06": dict(cfgs=quick16_all, consteval="focus",
    scope=lambda t: "six comparison operators on every pair of (S(w,r) u {+NaN,-NaN,INT64_MIN})^2; isnan/unary minus/abs on S(w,r) u both NaNs u every raw value of a dense interval around 0; complete within that bound",
    assumptions=COMMON_ASSUMPTIONS),
- "C15": dict(cfgs=quick16_all,
+ "C15": dict(cfgs=quick16_all, consteval="focus",
    scope=lambda t: "floor and ceil on every member of S(w,r) with |x| < 2^47-1 and on every raw value of a dense interval around 0 (all 16-bit fraction patterns, both signs)",
    assumptions=COMMON_ASSUMPTIONS),
- "C18": dict(cfgs=quick16_all,
+ "C18": dict(cfgs=quick16_all, consteval="focus",
    scope=lambda t: "x<<r and x>>r for x in S(w,r), r in {INT_MIN, INT_MIN+1, -2^30, -65536, -130..63}, plus every count of a dense range down to INT_MIN (thorough) for 16 representative x; & on S^2",
    assumptions=COMMON_ASSUMPTIONS + ["shift counts above 63 are outside the property's domain and are not executed"]),
- "C04": dict(cfgs=quick8,
+ "C04": dict(cfgs=quick8, consteval="focus",
    scope=lambda t: "every value of int8/uint8/int16/uint16; every value of int32/uint32 (constructor in quick, all entry points in thorough); S-shaped and boundary-window values of int64/uint64; fixed->T over S u windows at every target limit u a dense interval, 8 targets x 3 entry points; implicit promotion through +,-,+= with a zero operand; round trip",
    assumptions=COMMON_ASSUMPTIONS + ["64-bit integer operands are covered only on S(w,r) and windows around 0, +-2^31, +-2^32, 2^63, 2^64-1"]),
  "C05": dict(cfgs=quick8, consteval="focus",
    scope=lambda t: "float->fixed over ALL 2^32 bit patterns (2 configurations quick, all thorough) and a structured subset everywhere; double->fixed over all exponents x mantissa edge patterns, exact ties and ulp-neighbours, boundary windows; fixed->float/double over S, format halfway points and a dense interval; fixed->double->fixed round trip",
    assumptions=COMMON_ASSUMPTIONS + ["the 2^64 double patterns are covered only on the structured subset described in coverage.bound",
       "property text conflict on (2^31-1) <= |x| < 2^31: the NaN clause is applied there, the round-trip clause below (DESIGN section 7)"]),
- "C02": dict(cfgs=quick8,
+ "C02": dict(cfgs=quick8, consteval="focus",
    scope=lambda t: "fixed*fixed on every pair of S(w,r)^2 (operators * and *=); fixed*n, n*fixed, fixed*=n for all 8 integral types with every 8-/16-bit value and S-shaped 32/64-bit values; complete within that bound",
    assumptions=COMMON_ASSUMPTIONS),
- "C03": dict(cfgs=quick8,
+ "C03": dict(cfgs=quick8, consteval="focus",
    scope=lambda t: "fixed/fixed on every pair of S(w,r)^2 (operators / and /=) under a trap guard; fixed/n and fixed/=n for all 8 integral types with every 8-/16-bit value and S-shaped 32/64-bit values",
    assumptions=COMMON_ASSUMPTIONS + ["'truncated' for fixed/integer is read as truncation toward zero (C++ division)"]),
- "C16": dict(cfgs=quick8,
+ "C16": dict(cfgs=quick8, consteval="focus",
    scope=lambda t: "a in S(w,r) x operand values of each of the ten non-fixed types (every 8-bit value, every 16-bit value in thorough, S-shaped 32/64-bit values, structured float/double patterns incl. specials) x 4 operators x {a op t, t op a, a op= t}",
    assumptions=COMMON_ASSUMPTIONS + ["fixed op= double does not compile and is not part of the API", "double(a) is taken from the library's own conversion (judged by C05)"]),
  "C17": dict(cfgs=cfgs4, consteval="focus",
    scope=lambda t: "breadth-first search over operation histories from S(2,1) seeds with an alphabet of ~500 operations to depth 2 (quick) / 3 (thorough), every transition compared with the exact value model, every algebraic law instance evaluated on implementation values at every stored state; three-operand laws on the complete cube",
    assumptions=COMMON_ASSUMPTIONS + ["states are de-duplicated by raw value: sound because the library is stateless, equal values have equal futures"]),
- "C09": dict(cfgs=quick8,
+ "C09": dict(cfgs=quick8, consteval="focus",
    scope=lambda t: "accuracy and range on the COMPLETE stated domain (all 823,549 raw x with |x| <= 2pi); exact periodicity on every residue of [0,2phi) x a k-set reaching every binade up to 2^62, plus S(w,r) x the same k",
    assumptions=COMMON_ASSUMPTIONS + ["periodicity for |x| < 2^62 is covered for the listed k only (every |k| <= 64 and four k per binade), not for all ~2^43 values of k"]),
- "C10": dict(cfgs=quick16_all,
+ "C10": dict(cfgs=quick16_all, consteval="focus",
    scope=lambda t: "accuracy on the COMPLETE stated domain (all 411,775 raw x with |x| <= pi); pole, oddness and period on every residue of [0,phi) x a k-set reaching every binade up to 2^62, plus S(w,r)",
    assumptions=COMMON_ASSUMPTIONS + ["at a pole tan(x) and tan(-x) must both be NaN; the sign of the NaN sentinel is not compared (DESIGN section 7)"]),
- "C11": dict(cfgs=quick8,
+ "C11": dict(cfgs=quick8, consteval="focus",
    scope=lambda t: "atan on every raw x of a dense prefix [0, 2^26) (quick) / [0, 2^34) (thorough) of the domain plus S(w,r) up to 2^47, negatives through exact oddness, running-maximum monotonicity; atan2 on P^2 (S-shaped, |.| < 2^47) and a scaled dense grid",
    assumptions=COMMON_ASSUMPTIONS + ["glibc double atan/atan2 is used as a fast reference with a 1e-9 guard band; anything inside the band is decided with libquadmath",
        "atan arguments in [2^34, 2^47) and atan2 pairs are covered on the S-shaped subset only"]),
  "C12": dict(cfgs=quick16_all, consteval="focus",
    scope=lambda t: "the COMPLETE domain [-1,1] (131,073 raw values) under both square-root back-ends in every configuration; NaN clause on S(w,r) u +-NaN u a dense window beyond +-1",
    assumptions=COMMON_ASSUMPTIONS),
- "C13": dict(cfgs=all48_thorough,
+ "C13": dict(cfgs=all48_thorough, consteval="focus",
    scope=lambda t: "sqrt_abacus, sqrt_std_math and sqrt() on every raw x of a dense prefix of [0,2^47) ([0,2^26) quick / [0,2^33) thorough), on S(w,r) up to 2^47, on ALL 11,863,283 exactly representable squares, and on negative arguments; monotonicity over the sorted enumeration",
    assumptions=COMMON_ASSUMPTIONS + ["arguments in [2^33, 2^47) are covered on S(w,r) and the exact squares only"]),
- "C14": dict(cfgs=quick8,
+ "C14": dict(cfgs=quick8, consteval="focus",
    scope=lambda t: "hypot on every pair of P^2 (S-shaped operands with |.| < 2^47) and on threshold windows x P' in both orders, under both square-root back-ends; symmetry on every pair",
    assumptions=COMMON_ASSUMPTIONS),
- "C19": dict(cfgs=quick8, probes=probes2, consteval="focus",
+ "C19": dict(cfgs=quick11x, probes=probes2, consteval="focus",
    scope=lambda t: "all 1,234 table entries; the table index of ALL 2^32 angles for both angle functions; angle values for all 2^32 angles (2 configurations quick / all thorough); sqrt_aprox on a dense prefix ([1,2^26) quick, the COMPLETE domain [1,2^37) thorough); atan_index_aprox on a dense interval, every table break point and S(w,r)",
    assumptions=COMMON_ASSUMPTIONS + ["the index probe replaces only the two non-inline table accessors declared in math.h; the inline index computation is the working tree's",
       "atan_index_aprox for |x| in [2^26, 2^47) is covered on S(w,r) and break-point windows only"]),
- "C20": dict(cfgs=quick8,
+ "C20": dict(cfgs=quick8, consteval="focus",
    scope=lambda t: "angle_to_radians for every value of the 8/16-bit types, every value of int32/uint32 (2 configurations quick / all thorough), S-shaped 64-bit values; sin/cos/tan_angle for every integer d in [-360,360] x 10 argument types",
    assumptions=COMMON_ASSUMPTIONS + ["d = +-90, +-270 are true poles of tan and are excluded from the tan_angle accuracy clause"]),
- "C07": dict(cfgs=none, san=san_quick, probes=probes2, consteval="ub",
+ "C07": dict(cfgs=none, san=san_quick, probes=probes2, consteval="ub", asan=True,
    scope=lambda t: "every public entry point x its argument space extended by +-NaN and the extreme finite values, executed in UBSan-instrumented builds (own handlers: one callback per event) of both compilers under a trap guard; table index of ALL 2^32 angles through the index probe; dense shift counts; every float pattern (thorough)",
    assumptions=COMMON_ASSUMPTIONS + ["UB is observed through -fsanitize=undefined,float-cast-overflow (incl. bounds on std::array) and hardware traps; UB kinds these do not instrument (e.g. strict aliasing) are not observed",
       "raw INT64_MIN is neither finite nor NaN and is outside the property's domain; shift counts above 63 likewise"]),
